@@ -27,7 +27,7 @@ ENGINES = {
 }
 
 PROPS = {
-    'C08': dict(engine='e3', n=dict(quick=3000, thorough=60000), shards=4,
+    'C08': dict(engine='e3', n=dict(quick=3000, thorough=60000), shards=4, search_s=40,
                 manifest=dict(
                     level_text='TODO',
                     level_note='TODO',
